@@ -467,3 +467,22 @@ ADDENDA_R10T = {
     "C02": ("R02.14", "in the runtime's property wrappers a new reference fetched through _getitem_func is returned, stolen or released on every non-null path (found F-C02c, F-C02d)", "reference-ownership typestate over the CFG (cut edges: the null tests; cut blocks: the disposals)"),
     "C15": ("R15.32, R15.33", "a pre-decremented unsigned subscript has a floor (found F-C15ac, which round 1 had dismissed); a pointer the code itself found null is not used afterwards without a new test (found F-C15ad)", "index-floor evidence; contradiction rule with callee summaries"),
 }
+
+
+# Round 11 (DESIGN.md section 8).
+ADDENDA_R11 = {
+    "C05": ("R05.13", "parameter instances with and without a default value are ordered (CPPInstance::operator<)", "nullable-member ordering rule"),
+    "C06": ("R06.18", "a pointer member of a type's identity is compared by value, not only by presence", "comparison placement relative to nullness branches"),
+    "C07": ("R07.18", "macro expansions are spliced into constant expressions unchanged", "single-assignment provenance of the spliced text"),
+    "C09": ("R09.14", "an identifier left after expansion counts as 0 whether or not the macro table knows it", "condition-read analysis"),
+    "C10": ("R10.13", "abstractness is decided by the collected pure virtual functions alone", "must-pass-through"),
+    "C11": ("R11.13", "merge_from's name table is asked with the name it is keyed by (R13.6 claimed from the closure side)", "key-accessor agreement"),
+    "C12": ("R12.12", "no vector is resized to a count and then appended to in a loop over that count", "lint with a built-in positive example"),
+    "C14": ("R14.11", "no pointer into a temporary string is kept", "lint with a built-in positive example"),
+    "C15": ("extension of R15.25", "determine_type() results are nullable, also in locals initialised with nullptr", "nullable-result rule with callee summaries"),
+    "C16": ("R16.7", "every global type of the module contributes its edges", "loop-skip and condition analysis"),
+    "C17": ("tightened R17.4", "a command-line name is canonicalised on every path before it keys the parsed-file table", "must-pass-through"),
+    "C18": ("R18.10", "the cached power chosen for every binary exponent puts the product in Grisu's window", "evaluation of the index formula from the source over all 2098 exponents"),
+    "C19": ("R19.c", "no stream error state is cleared and no stream buffer is inserted wholesale", "lint with a built-in positive example"),
+    "C20": ("R20.14", "a module's range length is taken before its first index is moved", "reachability from the overwriting assignment"),
+}
